@@ -7,6 +7,7 @@ Theorems about `Pko.Model.Phase` (`preflightObj`, `preflightPhase`, `reconcilePh
 import Pko.Model.Phase
 import Pko.Props.C01
 import Pko.Props.C05
+import Pko.Lemmas.ObjectSet
 
 namespace Pko.Props.C11
 open Pko.Kube Pko.Model.Phase
@@ -180,6 +181,46 @@ theorem teardown_stays_inside (cfg : Cfg) (ow : Owner) (ps : List PObj) (w : Wor
         obtain ⟨evs, hev, hj⟩ := ih w' false
         exact ⟨ev0 ++ evs, by simp [hev, he0, List.append_assoc],
           fun e hm => (List.mem_append.1 hm).elim (hj0 e) (hj e)⟩
+
+/-- **listed_twice_writes_nothing**: an ObjectSet that lists the same object twice — same kind,
+namespace and name; a `PObj` carries no API version, so entries that differ only in the version
+they are written in ARE the same entry (`ObjectDuplicate` keys by GroupKind) — writes none of its
+objects: the phases part of the pass issues no write on any managed object, does not end `ok`
+(it is retried) and its only write on the ObjectSet is the status update reporting
+Available=False/PreflightError. -/
+theorem listed_twice_writes_nothing (cfg : Cfg) (rm : Pko.Model.ObjectSet.Remotes)
+    (s : Pko.Model.ObjectSet.Sys) (mem : Pko.Model.ObjectSet.OSet)
+    (h : Pko.Model.ObjectSet.hasDuplicates mem.phases = true) :
+    (Pko.Model.ObjectSet.activePhases cfg rm s mem).1.w.events = s.w.events ∧
+    (Pko.Model.ObjectSet.activePhases cfg rm s mem).2 ≠ .ok ∧
+    ∃ r, (Pko.Model.ObjectSet.activePhases cfg rm s mem).1.setEvents = s.setEvents ++
+      [.statusUpdate mem.name r mem.revision
+        (Pko.Model.Status.setCond mem.conds (Pko.Model.ObjectSet.availableCond mem.gen false "PreflightError" ""))
+        mem.controllerOf mem.remotePhases] := by
+  simp only [Pko.Model.ObjectSet.activePhases, h, if_true, Pko.Model.ObjectSet.statusFromError]
+  have key : ∀ m : Pko.Model.ObjectSet.OSet,
+      (Pko.Model.ObjectSet.afterStatus (s.updateStatus m) .requeue).1.w.events = s.w.events ∧
+      (Pko.Model.ObjectSet.afterStatus (s.updateStatus m) .requeue).2 ≠ .ok ∧
+      ∃ r, (Pko.Model.ObjectSet.afterStatus (s.updateStatus m) .requeue).1.setEvents = s.setEvents ++
+        [.statusUpdate m.name r m.revision m.conds m.controllerOf m.remotePhases] := by
+    intro m
+    have hev := Pko.Lemmas.ObjectSet.updateStatus_events s m
+    obtain ⟨r, hse⟩ := Pko.Lemmas.ObjectSet.updateStatus_setEvents s m
+    cases hu : s.updateStatus m with
+    | mk s' res =>
+      rw [hu] at hev hse
+      cases res with
+      | ok v => exact ⟨by simpa [Pko.Model.ObjectSet.afterStatus] using hev, by simp [Pko.Model.ObjectSet.afterStatus],
+                       r, by simpa [Pko.Model.ObjectSet.afterStatus] using hse⟩
+      | error e => exact ⟨by simpa [Pko.Model.ObjectSet.afterStatus] using hev, by simp [Pko.Model.ObjectSet.afterStatus],
+                          r, by simpa [Pko.Model.ObjectSet.afterStatus] using hse⟩
+  exact key _
+
+/-- Non-vacuity of `listed_twice_writes_nothing`: two entries for NsThing `a` in different phases. -/
+example : Pko.Model.ObjectSet.hasDuplicates
+    [⟨"p1", "", [⟨"NsThing", "", "a", .prevent, "x", false, .accept⟩]⟩,
+     ⟨"p2", "", [⟨"NsThing", "", "b", .prevent, "x", false, .accept⟩, ⟨"NsThing", "", "a", .prevent, "y", false, .accept⟩]⟩] = true := by
+  decide
 
 /-- Non-vacuity: a cluster-scoped kind listed by a namespaced ObjectSet is a violation (also
 when its namespace field is defaulted / set to the owner's), a namespaced one passes. -/
